@@ -56,6 +56,11 @@ CHECKS = {
          'Button games: every blind/straddle/post layout over {0,1,2,4,-2}^n (n=2..4, thorough 5) x short/deep stack patterns, first and later rounds, actor compared at every state. Stud and razz: every ordered door-card assignment (all 2652 for 2 players; 3-4 players over sub-decks, thorough full deck for 3) incl. all-in designees, and every assignment of 2-4 up-cards per player over 2-3 rank sub-decks (pairs, trips, quads, suit-only differences).',
          'Layouts whose largest blind is not the last positive entry are undetermined and skipped. Two genuine opener defects are listed in known_findings.json (heads-up non-ascending layouts; short last-blind poster).',
          'DESIGN.md section 4 C13'),
+ 'C14': ('model_checking',
+         'explicit-state BFS over the real State with a run-out reference model evaluated at every showdown state (who is offered the choice) and every terminal state (consensus, board algebra, pot split)',
+         'Every history of tiny-stack NT/PO/NS and a cheap hold\'em-like custom game (2-3 players, cash and tournament, 1-2 starting boards) with the all-in completed on every possible street, every preference vector over {None,1,2,3}, every selection order by explicit player index interleaved with showing, manual and automated dealing: the choice is offered exactly to the live players who have not chosen, only in cash mode with board cards to come, once; the run-out count follows the consensus rule; b*r complete boards, run-outs share exactly the pre-all-in cards, no card twice, b resp. b*r cards per board position, each pot split evenly over boards with the remainder on board 0.',
+         'Hold\'em-like street lists only. Exceptions on histories of the shapes covered by the C07 known findings are not judged.',
+         'DESIGN.md section 4 C14'),
 }
 
 def main():
